@@ -710,8 +710,45 @@ func (g *Gen) subdocProgram(n int) {
 	}
 }
 
+// queryProgram: a multi-collection write history with the query family run at random positions on every collection.
+func (g *Gen) queryProgram(n int) {
+	g.colls = []string{"c0", "c1", "c2"}
+	g.keys = []string{"k0", "k1", "k2", "k3"}
+	for i := 0; i < n; i++ {
+		g.tick()
+		c, k := pick(g.r, g.colls), pick(g.r, g.keys)
+		g.oneOp(c, k)
+		g.rb(c, k)
+		if g.r.chance(45) {
+			qc := pick(g.r, g.colls)
+			q := 1 + g.r.intn(6)
+			res := g.emit(Line{Op: "query", Pos: []string{qc}, Args: [][2]string{{"q", fmt.Sprint(q)}}})
+			g.stats["op:query"]++
+			nrows := "0"
+			for _, t := range strings.Split(res, " ") {
+				if strings.HasPrefix(t, "n=") {
+					nrows = t[2:]
+				}
+			}
+			g.stats[fmt.Sprintf("cell:query/q%d/rows%s", q, nrows)]++
+		}
+	}
+	for _, c := range g.colls {
+		for q := 1; q <= 6; q++ {
+			g.emit(Line{Op: "query", Pos: []string{c}, Args: [][2]string{{"q", fmt.Sprint(q)}}})
+		}
+	}
+}
+
 // program generates one program of n operations under the generator's profile.
 func (g *Gen) program(n int) {
+	if g.profile == "query" {
+		g.phys = 1 << 20
+		g.now = 1700000000
+		g.metaCas = 5000000
+		g.queryProgram(n)
+		return
+	}
 	if g.profile == "subdoc" {
 		g.phys = 1 << 20
 		g.now = 1700000000
